@@ -312,6 +312,17 @@ def rules(ctx, tier):
     out.append(r.finish())
 
     out.append(end_of_log_rule(ctx, "R6"))
+
+    # a rejected log stays rejected: the open that reports the damage leaves the damaged segment where it is
+    from . import c03
+    from .base import share_rule
+    x = share_rule(ctx, tier, c03, "R5", "R7",
+                   "the open path does not move, truncate or remove a log segment except by pruning behind a published "
+                   "snapshot (shared with C03-R5)",
+                   "the open that rejects a damaged segment renames it aside; the next open no longer sees it, succeeds, "
+                   "and silently serves a state that lacks even the undamaged records of that segment")
+    if x is not None:
+        out.append(x)
     return out
 
 
